@@ -98,6 +98,14 @@ CLAIMED = {
         note="trusted: the Graphviz quoted-string transcription in vlib/xducer.py; syn's parse; provenance terms of vlib/ast.py; tables/tree.toml (the Star drop)",
         design="5/C16",
     ),
+    "C12": dict(
+        technique="static analysis: syn rule on the literal ordering (accepted decreasing-length idioms, no later reordering, ids = positions), control-flow rules on the parsed bash within-word matcher and prefix filter, guard-agreement check against the zsh/fish/pwsh sibling matchers",
+        text="Decides on /repo's current source the structural conditions under which overlapping values inside a word are told apart: literals are numbered longest first and nothing reorders them; the bash matcher visits ids in that order, tests the exact match before "
+        "the `typed text is a prefix of this literal` exit, never takes that exit for a complete earlier word, requires a transition for exit/match/consume, advances by the literal's length, and reports success iff the word was consumed; the prefix filter applies no condition "
+        "beyond the prefix pattern; the three sibling matchers carry the same guards on the same exit. It does NOT decide the COMPREPLY of concrete value sets, command-output candidates inside a word, or the non-bash matchers beyond that agreement.",
+        note="trusted: vlib/bashparse.py's reading of the bash subset used; per-shell patterns that recognise the sibling exit line; byte length = bash ${#x} for ASCII literals",
+        design="5/C12",
+    ),
     "C02": dict(
         technique="static analysis: syn syntax-tree rules (traversal completeness, rebuild-preserves, translation table, field-flow provenance, pass order)",
         text="Decides the shape-visible necessary conditions of C02 on /repo's current source (every pass descends into every child; rebuilt nodes keep their labels; "
